@@ -476,6 +476,23 @@ theorem warning_error_raises (M F : Str) (fm : List Nat) (reg : List Str) (pw : 
   rw [List.foldl_cons, h1, h2 _ rfl]
   simp
 
+/-- every load of a template module – the first one, the load of a *reused* up-to-date module file, the
+    load after a regeneration because of a stale magic number / another source file – runs under the
+    translation hook, and every regeneration under the drop hook as well: on no path is a warning of the
+    module shown against the generated file (string/file templates: `compileTextPlan`; module-directory
+    templates: `compileFromFilePlan`, all four cases) -/
+theorem every_load_translated (upToDate accepted : Bool) :
+    (∀ sp ∈ Warn.compileFromFilePlan upToDate accepted,
+        (sp.1 = .load → sp.2 = .module) ∧ (sp.1 = .regen → sp.2 = .parseInModule)) ∧
+    (.load, .module) ∈ Warn.compileFromFilePlan upToDate accepted ∧
+    (∀ sp ∈ Warn.compileTextPlan, sp.2 ≠ .bare) := by
+  cases upToDate <;> cases accepted <;> decide
+
+/-- what the hypothesis `IsModule` of the `warning_shown_once_*` theorems excludes: a warning of the
+    module raised outside the hooks is shown untranslated -/
+example : (Warn.compile .always "M".toList "t.html".toList [1, 1, 7] []
+    [(.bare, ⟨"w".toList, "M".toList, 3⟩)]).shown = [("w".toList, "M".toList, 3)] := by decide
+
 /-- where a module warning is shown: the template's file name and `full_line_map[l-1]`; a warning of
     another file is shown unchanged -/
 theorem warning_location (M F : Str) (fm : List Nat) (w : Warn.W) :
